@@ -58,6 +58,24 @@ Proof. exact (l010_ws_only space). Qed.
 Theorem C17_l007_case_only : forall t, map (fold upper) (i_l007_fix t) = map (fold upper) t.
 Proof. exact (l007_case_only letter digit upper keywords_tab up_idem). Qed.
 
+(* ---- meaning: read as code, a text keeps its sequence of character runs and separators under every rewriter
+        (nothing added, dropped or merged; only the amount of whitespace and letter case change) ---- *)
+Definition reading := cview space upper.
+Theorem C17_l001_keeps_reading : forall t, reading (l001_fix t) = reading t.
+Proof. exact (l001_cview space upper). Qed.
+Theorem C17_l002_keeps_reading : forall t, reading (l002_fix t) = reading t.
+Proof. exact (l002_cview space upper). Qed.
+Theorem C17_l003_keeps_reading : forall t, reading (i_l003_fix t) = reading t.
+Proof. exact (l003_cview space upper 1). Qed.
+Theorem C17_l010_keeps_reading : forall t, reading (l010_fix t) = reading t.
+Proof. exact (l010_cview space upper). Qed.
+Theorem C17_l007_keeps_reading : forall t, reading (i_l007_fix t) = reading t.
+Proof. exact (l007_cview space upper letter digit keywords_tab up_idem up_nows). Qed.
+Theorem C17_cli_keeps_reading : forall t, reading (i_cli_fix t) = reading t.
+Proof. exact (cli_cview letter digit space upper keywords_tab up_idem up_nows). Qed.
+Theorem C17_format_keeps_reading : forall tab spaces final t, reading (i_format tab spaces final t) = reading t.
+Proof. exact (format_cview space upper). Qed.
+
 Print Assumptions C17_decode_wf.
 Print Assumptions C17_l001_fix_idempotent.
 Print Assumptions C17_l002_fix_idempotent.
@@ -75,6 +93,13 @@ Print Assumptions C17_l002_ws_only.
 Print Assumptions C17_l003_ws_only.
 Print Assumptions C17_l010_ws_only.
 Print Assumptions C17_l007_case_only.
+Print Assumptions C17_l001_keeps_reading.
+Print Assumptions C17_l002_keeps_reading.
+Print Assumptions C17_l003_keeps_reading.
+Print Assumptions C17_l010_keeps_reading.
+Print Assumptions C17_l007_keeps_reading.
+Print Assumptions C17_cli_keeps_reading.
+Print Assumptions C17_format_keeps_reading.
 
 (* ---- non-vacuity: the hypotheses are met by concrete, non-trivial texts; the fixers do change them ---- *)
 Local Open Scope N_scope.
